@@ -128,7 +128,7 @@ def composites(leaf):
     K("map", {"type": "object", "additionalProperties": s}, enf_=False)
     K("map_pat", {"type": "object", "patternProperties": {"^[a-z]+$": s}, "additionalProperties": False}, ff_=False, enf_=False)
     K("vec", {"type": "array", "items": s})
-    K("set", {"type": "array", "items": s, "uniqueItems": True}, ff_=False, enf_=False)
+    K("set", {"type": "array", "items": s, "uniqueItems": True}, enf_=False)   # valid documents (distinct items) must be accepted and round-trip; uniqueness itself is not enforced (C05)
     K("tuple2", {"type": "array", "items": [s, INT], "minItems": 2, "maxItems": 2})
     K("tuple1", {"type": "array", "items": [s], "minItems": 1, "maxItems": 1})
     K("array2", {"type": "array", "items": s, "minItems": 2, "maxItems": 2})
@@ -404,6 +404,9 @@ MEMBER_TYPES = {
     "number": ({"type": "number"}, None, None), "str_max2": ({"type": "string", "maxLength": 2}, "", "ab"),
     "enum_ab": ({"type": "string", "enum": ["a", "b"]}, None, "b"), "vec": ({"type": "array", "items": INT}, [], [3]),
     "set": ({"type": "array", "items": INT, "uniqueItems": True}, [], [3]),
+    "set_min1": ({"type": "array", "items": STR, "uniqueItems": True, "minItems": 1}, None, ["x"]),
+    "vec_min1": ({"type": "array", "items": STR, "minItems": 1}, None, ["x"]),
+    "map_min1": ({"type": "object", "additionalProperties": INT, "minProperties": 1}, None, {"k": 1}),
     "map": ({"type": "object", "additionalProperties": INT}, {}, {"tier": 2}), "map_any": ({"type": "object"}, {}, {"k": [1]}),
     "nullable": ({"type": ["string", "null"]}, None, "nd"), "tuple": ({"type": "array", "items": [INT, STR], "minItems": 2, "maxItems": 2}, None, [7, "d"]),
     "tuple1": ({"type": "array", "items": [INT], "minItems": 1, "maxItems": 1}, None, [7]),
@@ -438,7 +441,7 @@ def member_family(tier):
             if m is not None:
                 specs.append((t, st, m))
     for (t, st, m) in specs:
-        out.append(L("member[%s:%s]" % (t, st), obj({"a": m, "z": INT}, ["a"] if st == "req" else []), ff=t not in ("set", "number"), enf=False, fam=True))
+        out.append(L("member[%s:%s]" % (t, st), obj({"a": m, "z": INT}, ["a"] if st == "req" else []), ff=t not in ("number",), enf=False, fam=True))
     if tier != "quick":
         core = [x for x in specs if x[0] in ("string", "str_max2", "vec", "map", "nullable", "enum_ab", "inline_struct", "unit")]
         for (t1, s1, m1) in core:
@@ -556,7 +559,7 @@ def array_family(tier):
         if tier == "quick" and iname in ("struct", "nullable"):
             continue
         for bname, b in bounds.items():
-            sh = L("arr[%s:%s]" % (iname, bname), dict({"type": "array", "items": copy.deepcopy(it)}, **b), ff="unique" not in bname,
+            sh = L("arr[%s:%s]" % (iname, bname), dict({"type": "array", "items": copy.deepcopy(it)}, **b), ff=True,
                    enf=bname in ("none", "2_2", "1_1"), fam=True)   # only a FIXED length is a constraint typify represents (C05)
             sh["tg"] = {"ar_items": iname, "ar_bounds": bname}
             sh["sup"] = bname in ("none", "2_2", "1_1", "unique")   # Vec<T>, [T; N], HashSet<T> as schemars writes them
@@ -754,7 +757,7 @@ def twins(tier):
             for x, y in ((a, b), (b, a)):
                 sa, sb = LEAF[x]["schema"], LEAF[y]["schema"]
                 doc = _doc({"T": obj({"p": k(copy.deepcopy(sa)), "q": k(copy.deepcopy(sb)), "r": k(copy.deepcopy(sa))}, ["p", "q"])})
-                out.append({"id": "twins[%s:%s,%s]@struct" % (kn, x, y), "doc": doc, "target": "T", "ff": kn != "set", "enf": kn not in ("set", "map"),
+                out.append({"id": "twins[%s:%s,%s]@struct" % (kn, x, y), "doc": doc, "target": "T", "ff": True, "enf": kn not in ("set", "map"),
                             "strish": False, "shape": "twins:" + kn, "ctx": "twins"})
     # same members, other arrangement: tuple order, array length
     extra = {
@@ -766,6 +769,6 @@ def twins(tier):
         "opt_vs_optopt": obj({"p": {"type": ["integer", "null"]}, "q": {"oneOf": [{"type": ["integer", "null"]}, {"type": "string"}]}}),
     }
     for en, sch in extra.items():
-        out.append({"id": "twins[%s]@struct" % en, "doc": _doc({"T": sch}), "target": "T", "ff": en != "vec_vs_set", "enf": en not in ("vec_vs_set", "map_vs_mapany"),
+        out.append({"id": "twins[%s]@struct" % en, "doc": _doc({"T": sch}), "target": "T", "ff": True, "enf": en not in ("vec_vs_set", "map_vs_mapany"),
                     "strish": False, "shape": "twins:" + en, "ctx": "twins"})
     return out
